@@ -214,15 +214,32 @@ class Check(common.Check):
             c['beats'] = fq(self.dy(rng, -8, 30))
         return c
 
+    def gen_pat_case(self, rng):
+        """the pattern player (Pbind(...).play(clock)) paused and resumed at fractional beats, mostly WITHOUT a
+        quant (the default quant: next whole beat); handled like the rt cases (oracle on the real clock only)"""
+        plays = []
+        for _ in range(rng.randint(1, 3)):
+            a = Fraction(rng.randint(1, 11), 4)
+            b = 1 + Fraction(rng.choice([0, 1, 2, 3, 5, 6, 7]), 4)
+            if rng.random() < 0.6:
+                plays.append([fq(a), fq(b), '-', '-'])
+            else:
+                q = rng.choice([1, 2, 3, 4])
+                plays.append([fq(a), fq(b), f'i:{q}', num(Fraction(rng.randint(0, 4 * q - 1), 4), False)])
+        return {'rt': True, 'pat': True, 'tempo': fq(Fraction(rng.choice([1, 2, 4, 3, 5]), rng.choice([1, 1, 2, 4]))),
+                'plays': plays}
+
     def gen(self, rng, n):
         cases = [self.gen_case(rng) for _ in range(n)]
         cases += [self.gen_rt_case(rng) for _ in range(max(6, n // 60))]
+        cases += [self.gen_pat_case(rng) for _ in range(max(6, n // 60))]
         return cases
 
     # ------------------------------------------------------------------ runners
     def impl(self, cases):
         nrt = [c for c in cases if not c.get('rt')]
-        rt = [c for c in cases if c.get('rt')]
+        rt = [c for c in cases if c.get('rt') and not c.get('pat')]
+        pat = [c for c in cases if c.get('pat')]
         res, err = common.run_impl('c12', 'run', {'cases': nrt})
         if res is None:
             self.notes.append(err)
@@ -233,8 +250,14 @@ class Check(common.Check):
             if res2 is None:
                 self.notes.append(err)
                 return None
-        a, b = iter(res), iter(res2)
-        return [next(b) if c.get('rt') else next(a) for c in cases]
+        res3 = []
+        if pat:
+            res3, err = common.run_impl('c12', 'run_pat', {'cases': pat})
+            if res3 is None:
+                self.notes.append(err)
+                return None
+        a, b, c3 = iter(res), iter(res2), iter(res3)
+        return [next(c3) if c.get('pat') else next(b) if c.get('rt') else next(a) for c in cases]
 
     def model(self, cases):
         lines = []
@@ -298,7 +321,23 @@ class Check(common.Check):
         return None
 
     # ------------------------------------------------------------------ oracle
+    def pat_oracle(self, case, out):
+        if out.get('error'):
+            return {'what': f'pattern player pause/resume: {out["error"]}', 'signature': 'tempo:player-resume'}
+        for (a, b, q, p), (before, got) in zip(case['plays'], out['plays']):
+            qv, pv = (Fraction(1), Fraction(0)) if q == '-' else (numval(q), numval(p))
+            b0 = F(before)
+            exp = pv + math.ceil((b0 - pv) / qv) * qv
+            if got == 'none' or abs(F(got) - exp) > Fraction(1, 10 ** 9):     # beats↔seconds rounds for tempo 3, 5/4 …
+                how = 'resume() without a quant (default: the next whole beat)' if q == '-' else f'resume(quant=Quant({qv}, {pv}))'
+                return {'what': f'pattern player paused and resumed at beat {float(b0)} (tempo {case["tempo"]}) with {how}: its next '
+                                f'event is at beat {got if got == "none" else float(F(got))}, next_time_on_grid gives {float(exp)}',
+                        'signature': 'tempo:player-resume'}
+        return None
+
     def rt_oracle(self, case, out):
+        if case.get('pat'):
+            return self.pat_oracle(case, out)
         if out.get('error'):
             return {'what': f'real-time play from the main thread: {out["error"]}', 'signature': 'tempo:rt-play'}
         origin = F(out['origin'])
@@ -510,7 +549,8 @@ class Check(common.Check):
         h = {}
         for c, o in zip(cases, outs):
             if c.get('rt'):
-                h['rt-play-from-main-thread'] = h.get('rt-play-from-main-thread', 0) + len(c['plays'])
+                key = 'pattern-player-resume' if c.get('pat') else 'rt-play-from-main-thread'
+                h[key] = h.get(key, 0) + len(c['plays'])
                 continue
             for line, res in zip(['init'] + c['ops'], o):
                 w = line.split()
